@@ -107,6 +107,13 @@ class MemoryWorkflowStore(AbstractWorkflowStore):
     async def update(self, handler: PersistentHandler) -> None:
         self.handlers[handler.handler_id] = handler
         if is_terminal_status(handler.status):
+            # One queue entry per handler: a repeated terminal update (or a
+            # completion after a re-run) moves it to the back instead of
+            # counting the same handler twice against max_completed.
+            try:
+                self._terminal_queue.remove(handler.handler_id)
+            except ValueError:
+                pass
             self._terminal_queue.append(handler.handler_id)
             self._evict_oldest_completed()
 
@@ -128,6 +135,20 @@ class MemoryWorkflowStore(AbstractWorkflowStore):
         """
         if self.max_completed is None:
             return
+
+        # Entries of handlers that were deleted, or re-upserted as running,
+        # must not count against the cap.
+        if any(
+            (h := self.handlers.get(handler_id)) is None
+            or not is_terminal_status(h.status)
+            for handler_id in self._terminal_queue
+        ):
+            self._terminal_queue = deque(
+                handler_id
+                for handler_id in self._terminal_queue
+                if (h := self.handlers.get(handler_id)) is not None
+                and is_terminal_status(h.status)
+            )
 
         while len(self._terminal_queue) > self.max_completed:
             handler_id = self._terminal_queue.popleft()
